@@ -8,7 +8,7 @@
   bilinear : C17_bilinear_access (all nine cases, all w,h ≥ 1), C17_bilinear_convex (any ordered field),
              C17_convex_between, C17_bilinear_value_between, C17_bilinear_integer_points
   resample : C17_resample_loop, C17_resize_identity, C17_resize_same_size
-  summary  : C17_bilinear_sampler (outside iff, access, surrounding, convex, at most four), C17_samplers_inside_domain,
+  summary  : C17_bilinear_sampler (outside iff, access, surrounding, convex, at most four), C17_samplers_inside_domain, C17_samplers_far_outside,
              C17_trunc_between, C17_bilinear_at_most_four
   matrix   : C17_matrix_assoc, C17_matrix_one, C17_matrix_apply_mul, C17_matrix_inverse, C17_matrix_maps_back,
              C17_translate_scale_compose, C17_rotate_compose   (any field; cos/sin enter as an opaque pair)
@@ -505,6 +505,32 @@ theorem C17_samplers_inside_domain (w h : Int) (src : Int → Int → Int) (nx n
       nlinarith [ry.1, ry.2.1]
 
 example : (0 : Int) ≤ 5 ∧ 5 ≤ (3 - 1) * 8 := by decide
+
+/-- farther than one pixel from the view (no source pixel surrounds the point) both samplers report "outside" -/
+theorem C17_samplers_far_outside (w h : Int) (src : Int → Int → Int) (nx ny D : Int) (hD : 0 < D) (hw : 1 ≤ w) (hh : 1 ≤ h)
+    (hfar : farOutside w h nx ny D = true) :
+    bilinearQ w h src nx ny D = none ∧ nearestQ w h nx ny D = none := by
+  unfold farOutside at hfar
+  simp only [Bool.or_eq_true, decide_eq_true_eq] at hfar
+  constructor
+  · rw [(C17_bilinear_sampler w h src nx ny D hD hw hh).1]
+    intro hc
+    rcases hfar with ((hf | hf) | hf) | hf <;> omega
+  · rw [(C17_nearest w h nx ny D hD).2]
+    intro hc
+    have rx := C17_iround_spec nx D hD
+    have ry := C17_iround_spec ny D hD
+    rcases hfar with ((hf | hf) | hf) | hf
+    · have : 0 ≤ D * iroundQ nx D := Int.mul_nonneg (by omega) hc.1
+      nlinarith [rx.1]
+    · have : D * (iroundQ nx D + 1) ≤ D * w := Int.mul_le_mul_of_nonneg_left (by omega) (by omega)
+      nlinarith [rx.2.1]
+    · have : 0 ≤ D * iroundQ ny D := Int.mul_nonneg (by omega) hc.2.2.1
+      nlinarith [ry.1]
+    · have : D * (iroundQ ny D + 1) ≤ D * h := Int.mul_le_mul_of_nonneg_left (by omega) (by omega)
+      nlinarith [ry.2.1]
+
+example : farOutside 3 2 (-9) 0 8 = true := by decide
 
 /-- `resize_view` to the same size is the identity (exact arithmetic): the matrix is the identity, so destination
     pixel (x,y) samples the source at exactly (x,y), where both samplers return the source pixel itself -/
